@@ -247,6 +247,8 @@ def entries():
     add("StandardNormal/2d", "dist", lambda: D.StandardNormal([2, 2]), _rn(2, 2), flags={"sample", "noparams", "mean"})
     add("DiagonalNormal", "dist", lambda: D.DiagonalNormal([3]), _rn(3), flags={})
     add("ConditionalDiagonalNormal", "dist", lambda: D.ConditionalDiagonalNormal([3], context_encoder=torch.nn.Linear(2, 6)), _rn(3), _rn(2), flags={"sample", "needs_ctx", "mean"})
+    # scalar events (shape []): inputs of shape [n], the context row IS (mean, log_std)
+    add("ConditionalDiagonalNormal/scalar-event", "dist", lambda: D.ConditionalDiagonalNormal([]), _rn(), (lambda n, g: 0.5 * torch.randn(n, 2, generator=g)), flags={"sample", "needs_ctx", "mean", "noparams"})
     add("ConditionalDiagonalNormal/identity-encoder", "dist", lambda: D.ConditionalDiagonalNormal([3]), _rn(3), (lambda n, g: 0.5 * torch.randn(n, 6, generator=g)), flags={"sample", "needs_ctx", "mean", "noparams"})
     add("ConditionalIndependentBernoulli/identity-encoder", "dist", lambda: D.ConditionalIndependentBernoulli([3]), (lambda n, g: (torch.rand(n, 3, generator=g) < 0.5).float()), _rn(3), flags={"sample", "needs_ctx", "discrete", "mean", "noparams"})
     add("ConditionalIndependentBernoulli", "dist", lambda: D.ConditionalIndependentBernoulli([3], context_encoder=torch.nn.Linear(2, 3)), (lambda n, g: (torch.rand(n, 3, generator=g) < 0.5).float()), _rn(2), flags={"sample", "needs_ctx", "discrete", "mean"})
